@@ -95,3 +95,10 @@ Theorem C14_targets_agree_under_lambda : forall (w : world) t ws r sc v st,
   fst (map_target w (S (S (List.length ws))) t sc (v, st)) = RVal r /\ fst (target w (S (S (List.length ws))) t sc (v, st)) = RVal r.
 Proof. exact targets_agree_under_lambda. Qed.
 Print Assumptions C14_targets_agree_under_lambda.
+(* … and through stacks that also hold `with` wrappers: the same set, the same nodes entered, the same contexts left behind, whatever chain either
+   walk was handed (the chain look-ups of the wrappers are assumed not to raise) *)
+Theorem C14_targets_agree_on_stacks : forall (w : world) ws r sc sc' v st,
+  linked2 w ws r -> w_cls w r = CSet -> NoDup (ws ++ [r]) -> (forall x, In x (ws ++ [r]) -> ~ In x v) -> lookups_total w (ws ++ [r]) ->
+  map_target w (S (List.length ws)) (hd r ws) sc (v, st) = target w (S (List.length ws)) (hd r ws) sc' (v, st).
+Proof. exact targets_agree_on_stacks. Qed.
+Print Assumptions C14_targets_agree_on_stacks.
